@@ -3,6 +3,7 @@ package main
 import (
 	"fmt"
 	"os"
+	"runtime"
 	"strings"
 	"time"
 
@@ -97,6 +98,25 @@ validations:
 // a text that is not JSON, longer than any read buffer, whose error is found in its first bytes
 var warmupLongGarbage = "#%RAML 1.0\ntitle: not a JSON document\n" + strings.Repeat("description: this text is not JSON-LD and must never be remembered by anything\n", 40)
 
+// compiles, but evaluation fails on any graph with two or more nodes (a complete rule with conflicting values)
+const warmupEvalError = `#%Validation Profile 1.0
+profile: warmup failing in evaluation
+prefixes:
+  wu: http://warmup.invalid/ns#
+rego_extensions: |
+  warmup_conflict = x {
+    x := input["@ids"][_]["@id"]
+  }
+violation:
+  - w
+validations:
+  w:
+    targetClass: wu.T
+    message: never
+    rego: |
+      $result = (warmup_conflict == "zzz")
+`
+
 const warmupOk = `#%Validation Profile 1.0
 profile: warmup
 prefixes:
@@ -155,6 +175,17 @@ func warmup() {
 			quiet(func() { pkg.ValidateWithConfiguration(warmupOk, data, false, nil, clockB, alt) })
 			quiet(func() { pkg.ValidateWithConfiguration(warmupOk, data, true, nil, clockA, altLex) })
 		}
+		// more failed evaluations than there are processors (whatever a failed call holds on to must be given back)
+		for i := 0; i < 2*runtime.NumCPU()+2; i++ {
+			quiet(func() { pkg.Validate(warmupEvalError, warmupData, false, nil) })
+		}
+		quiet(func() {
+			if h, err := pkg.CompileProfile(warmupEvalError, false, nil); err == nil {
+				for i := 0; i < 4; i++ {
+					pkg.ValidateCompiled(h, warmupData, false, nil)
+				}
+			}
+		})
 		// the process must still be usable afterwards
 		quiet(func() {
 			h, err := pkg.CompileProfile(warmupOk, false, nil)
